@@ -553,8 +553,12 @@ func (s *scanningState) scan(line []byte) (bool, error) {
 					s.Goroutines = make([]*Goroutine, 0, 4)
 				}
 				s.Goroutines = append(s.Goroutines, g)
+				if s.state == looking {
+					// The indentation of the first header is the one in force
+					// for the whole dump.
+					s.prefix = append([]byte{}, match[1]...)
+				}
 				s.state = gotRoutineHeader
-				s.prefix = append([]byte{}, match[1]...)
 				return true, nil
 			}
 		}
